@@ -21,7 +21,8 @@ Record Inv (st : state) : Prop := {
   inv_ackedphase : is_acked_phase (ph st) = true -> acked st = true;
   inv_erracked : ph st = Returned RErrAcked -> acked st = true;
   inv_rclosed : ph st = Returned RClosed -> closed st = true;
-  inv_rctx : ph st = Returned RCtx -> cancelled st = true
+  inv_rctx : ph st = Returned RCtx -> cancelled st = true;
+  inv_wait_dead : forall g, ph st = Waiting g -> is_dead st g = true
 }.
 
 Lemma existsb_cons_true g g' d :
@@ -39,7 +40,7 @@ Lemma inv_init : Inv init.
 Proof. constructor; cbn; intros; try discriminate; try lia; auto. Qed.
 
 (* finishing tactic for the invocation's own events: only the phase (and ghosts) change *)
-Ltac fin I1 I2 I3 I4 I4b I5 I6 I7 P :=
+Ltac fin I1 I2 I3 I4 I4b I5 I6 I7 I8 P :=
   constructor; cbn; intros;
   repeat match goal with
          | H : Some _ = Some _ |- _ => inversion H; subst; clear H
@@ -48,48 +49,50 @@ Ltac fin I1 I2 I3 I4 I4b I5 I6 I7 P :=
   try (match goal with H : acked _ = true |- _ => destruct (I4 H) as [? F]; try rewrite P in F; cbn in F; try contradiction; auto end);
   try (apply I3; try rewrite P; reflexivity);
   try (apply I4b; try rewrite P; reflexivity);
-  try (apply I1; assumption); try (apply I2; assumption); try lia.
+  try (apply I1; assumption); try (apply I2; assumption); try lia;
+  try (match goal with Hw : Waiting _ = Waiting _ |- _ => inversion Hw; subst; assumption end);
+  try (apply I8; try rewrite P; assumption).
 
 Lemma step_inv st e st' : Inv st -> step st e = Some st' -> Inv st'.
 Proof.
-  intros [I1 I2 I3 I4 I4b I5 I6 I7] H.
+  intros [I1 I2 I3 I4 I4b I5 I6 I7 I8] H.
   unfold is_dead in *.
   destruct e; cbn -[Nat.ltb Nat.leb] in H; unfold is_dead in H.
   - (* ESnapshot *)
     destruct (ph st) eqn:P; try discriminate. inversion H; subst; clear H.
-    fin I1 I2 I3 I4 I4b I5 I6 I7 P.
+    fin I1 I2 I3 I4 I4b I5 I6 I7 I8 P.
   - (* ESend *)
     destruct (ph st) as [|g s| |] eqn:P; try discriminate. destruct s; try discriminate.
     destruct (existsb (Nat.eqb g) (dead st)) eqn:D; try discriminate. inversion H; subst; clear H.
-    fin I1 I2 I3 I4 I4b I5 I6 I7 P.
+    fin I1 I2 I3 I4 I4b I5 I6 I7 I8 P.
   - (* ESendLost *)
     destruct (ph st) as [|g s| |] eqn:P; try discriminate. destruct s; try discriminate.
     destruct (existsb (Nat.eqb g) (dead st)) eqn:D; try discriminate. inversion H; subst; clear H.
-    fin I1 I2 I3 I4 I4b I5 I6 I7 P.
+    fin I1 I2 I3 I4 I4b I5 I6 I7 I8 P.
   - (* EAck *)
     destruct (ph st) as [|g s| |] eqn:P; try discriminate. destruct s; try discriminate.
     destruct (existsb (Nat.eqb g) (dead st)) eqn:D; try discriminate. inversion H; subst; clear H.
-    fin I1 I2 I3 I4 I4b I5 I6 I7 P.
+    fin I1 I2 I3 I4 I4b I5 I6 I7 I8 P.
   - (* EResult *)
     destruct (ph st) as [|g s| |] eqn:P; try discriminate.
     destruct s; try discriminate; destruct (existsb (Nat.eqb g) (dead st)) eqn:D; try discriminate; inversion H; subst; clear H;
-      fin I1 I2 I3 I4 I4b I5 I6 I7 P.
+      fin I1 I2 I3 I4 I4b I5 I6 I7 I8 P.
   - (* EObserveDead *)
     destruct (ph st) as [|g s| |] eqn:P; try discriminate.
     destruct (existsb (Nat.eqb g) (dead st)) eqn:D; try discriminate.
-    destruct s; inversion H; subst; clear H; fin I1 I2 I3 I4 I4b I5 I6 I7 P.
+    destruct s; inversion H; subst; clear H; fin I1 I2 I3 I4 I4b I5 I6 I7 I8 P.
   - (* EWake *)
     destruct (ph st) as [|g s|g|] eqn:P; try discriminate.
     destruct (Nat.ltb g (cur_gen st)); try discriminate. inversion H; subst; clear H.
-    fin I1 I2 I3 I4 I4b I5 I6 I7 P.
+    fin I1 I2 I3 I4 I4b I5 I6 I7 I8 P.
   - (* EWakeClosed *)
     destruct (ph st) as [|g s|g|] eqn:P; try discriminate.
     destruct (closed st) eqn:C; try discriminate. inversion H; subst; clear H.
-    fin I1 I2 I3 I4 I4b I5 I6 I7 P.
+    fin I1 I2 I3 I4 I4b I5 I6 I7 I8 P.
   - (* EWakeCtx *)
     destruct (ph st) as [|g s|g|] eqn:P; try discriminate;
       destruct (cancelled st) eqn:C; try discriminate; inversion H; subst; clear H;
-      fin I1 I2 I3 I4 I4b I5 I6 I7 P.
+      fin I1 I2 I3 I4 I4b I5 I6 I7 I8 P.
   - (* EKill *)
     destruct (existsb (Nat.eqb g) (dead st) || negb (Nat.leb g (cur_gen st))) eqn:D; try discriminate.
     apply orb_false_iff in D; destruct D as [D1 D2]. apply negb_false_iff, Nat.leb_le in D2.
@@ -98,6 +101,7 @@ Proof.
     subst st'. constructor; cbn; intros; auto.
     + apply existsb_cons_true in H0. destruct H0 as [->|H0]; auto.
     + apply existsb_cons_true. right. apply I2; auto.
+    + apply existsb_cons_true. right. apply I8; auto.
   - (* EReplace *)
     destruct (existsb (Nat.eqb (cur_gen st)) (dead st) && negb (closed st)) eqn:D; try discriminate.
     apply andb_true_iff in D; destruct D as [D1 D2]. apply negb_true_iff in D2.
@@ -111,6 +115,7 @@ Proof.
     subst st'. constructor; cbn -[seq]; intros; auto.
     + apply existsb_app_seq in H0. destruct H0 as [H0|H0]; [lia|apply I1; exact H0].
     + apply existsb_app_seq. left; lia.
+    + apply existsb_app_seq. right. apply I8; auto.
   - (* ECancel *)
     assert (E : st' = mkSt (ph st) (cur_gen st) (dead st) (closed st) true (nsends st) (acked st) (sends_at_ack st))
       by (destruct (ph st); inversion H; reflexivity).
@@ -220,4 +225,43 @@ Proof.
     destruct pw, (g <? cg) eqn:W, s; simp; reflexivity.
   - destruct pw, (g <? cg) eqn:W; simp; reflexivity.
   - reflexivity.
+Qed.
+
+(* ---- the snapshot (connection, its "replaced" channel) is atomic: an invocation only ever
+   waits on the channel of a connection that is dead, so the reconnect loop -- which
+   replaces the current connection once it is dead -- wakes it ---- *)
+Lemma waits_only_on_dead es st g :
+  run init es = Some st -> ph st = Waiting g -> is_dead st g = true /\ g <= cur_gen st.
+Proof.
+  intros H P. pose proof (reachable_inv _ _ H) as I. split.
+  - apply (inv_wait_dead _ I); exact P.
+  - apply (inv_gen _ I). rewrite P; reflexivity.
+Qed.
+
+Lemma waiting_can_be_woken es st g :
+  run init es = Some st -> ph st = Waiting g -> closed st = false ->
+  exists st', (run st [EWake] = Some st' \/ run st [EReplace; EWake] = Some st') /\ ph st' = Idle.
+Proof.
+  intros H P C. destruct (waits_only_on_dead _ _ _ H P) as [D L].
+  destruct (Nat.ltb g (cur_gen st)) eqn:W.
+  - eexists; split; [left; cbn -[Nat.ltb]; rewrite P, W; reflexivity|reflexivity].
+  - apply Nat.ltb_ge in W. assert (g = cur_gen st) by lia. subst g.
+    eexists; split; [right|].
+    + cbn -[Nat.ltb]. rewrite D, C. cbn -[Nat.ltb]. rewrite P.
+      replace (cur_gen st <? S (cur_gen st)) with true by (symmetry; apply Nat.ltb_lt; lia). reflexivity.
+    + reflexivity.
+Qed.
+
+(* what a non-atomic snapshot would produce -- the old dead connection paired with the
+   channel of the current, working generation, i.e. Waiting on a live current generation --
+   is stuck: neither the invocation nor the reconnect loop has an enabled step (lost wake-up).
+   By [waits_only_on_dead] no such state is reachable with the atomic snapshot. *)
+Lemma split_snapshot_state_is_stuck st :
+  ph st = Waiting (cur_gen st) -> is_dead st (cur_gen st) = false ->
+  closed st = false -> cancelled st = false ->
+  step st ESnapshot = None /\ step st ESend = None /\ step st ESendLost = None /\ step st EAck = None /\
+  (forall v, step st (EResult v) = None) /\ step st EObserveDead = None /\ step st EWake = None /\
+  step st EWakeClosed = None /\ step st EWakeCtx = None /\ step st EReplace = None.
+Proof.
+  intros P D C X. cbn -[Nat.ltb]. rewrite P, D, C, X, Nat.ltb_irrefl. cbn. repeat split; reflexivity.
 Qed.
